@@ -88,7 +88,8 @@ class EventBase(ObjectWithFields):
             elif isinstance(dflt, int):
                 # a repeat interval or timescale of zero (or less) would make
                 # event generation loop forever or divide by zero
-                minimum = 1 if key in {'interval', 'timescale'} else None
+                # counts, durations and start times are unsigned box fields
+                minimum = 1 if key in {'interval', 'timescale'} else 0
                 maximum = None
                 if key == 'version':
                     # the emsg box only defines versions 0 and 1
